@@ -1014,7 +1014,7 @@ def run(chk: Check) -> int:
         del nodes, edges
 
     # 3. whole back-tests through the Actuator: TLC simulation in BarMode, live TWAP
-    num = 64 if quick else 2400
+    num = 64 if quick else 800
     simdir = chk.tmp / "sim"
     simdir.mkdir()
     w = 16
